@@ -190,6 +190,11 @@ func (g *hGen) mkPod(ns, name string) *corev1.Pod {
 	if owner != "" {
 		t := true
 		p.OwnerReferences = []metav1.OwnerReference{{APIVersion: "apps/v1", Kind: "ReplicaSet", Name: owner, UID: types.UID("u" + owner), Controller: &t}}
+		if r.chance(1, 5) {
+			// the controller's reference need not be the first one
+			f := false
+			p.OwnerReferences = append([]metav1.OwnerReference{{APIVersion: "v1", Kind: "ConfigMap", Name: "not-the-controller", UID: "ucm"}, {APIVersion: "batch/v1", Kind: "Job", Name: "helper", UID: "ujob", Controller: &f}}, p.OwnerReferences...)
+		}
 	}
 	return p
 }
@@ -205,6 +210,16 @@ func ownerPorts(ownerKey string, labels map[string]string, epoch int) []corev1.C
 		ports = append(ports, corev1.ContainerPort{Name: "dns", ContainerPort: 53, Protocol: corev1.ProtocolUDP})
 	}
 	return ports
+}
+
+// ctlOwner: the name of the controller among the pod's owner references ("" if none).
+func ctlOwner(p *corev1.Pod) string {
+	for _, o := range p.OwnerReferences {
+		if o.Controller != nil && *o.Controller {
+			return o.Name
+		}
+	}
+	return ""
 }
 
 // confusable derives a label set that a sloppy key (hash, string join) could mistake for l.
@@ -453,9 +468,9 @@ func (g *hGen) mutate() {
 		if len(p.OwnerReferences) > 0 {
 			// the last pod of a workload goes: whatever comes back under that owner is a new rollout
 			// and may have other container ports
-			ok, left := p.Namespace+"/"+p.OwnerReferences[0].Name, 0
+			ok, left := p.Namespace+"/"+ctlOwner(p), 0
 			for _, q := range g.pods {
-				if len(q.OwnerReferences) > 0 && q.Namespace+"/"+q.OwnerReferences[0].Name == ok {
+				if len(q.OwnerReferences) > 0 && q.Namespace+"/"+ctlOwner(q) == ok {
 					left++
 				}
 			}
@@ -574,11 +589,11 @@ func (g *hGen) mutate() {
 			return
 		}
 		first := g.pods[pick(r, owned)]
-		ok := first.Namespace + "/" + first.OwnerReferences[0].Name
+		ok := first.Namespace + "/" + ctlOwner(first)
 		g.epoch[ok]++
 		for _, k := range owned {
 			p := g.pods[k]
-			if p.Namespace+"/"+p.OwnerReferences[0].Name != ok || fmt.Sprint(p.Labels) != fmt.Sprint(first.Labels) {
+			if p.Namespace+"/"+ctlOwner(p) != ok || fmt.Sprint(p.Labels) != fmt.Sprint(first.Labels) {
 				continue
 			}
 			np := p.DeepCopy()
@@ -597,7 +612,7 @@ func (g *hGen) mutate() {
 			}
 			n := 0
 			for _, q := range g.pods {
-				if len(q.OwnerReferences) > 0 && q.Namespace == p.Namespace && q.OwnerReferences[0].Name == p.OwnerReferences[0].Name {
+				if len(q.OwnerReferences) > 0 && q.Namespace == p.Namespace && ctlOwner(q) == ctlOwner(p) {
 					n++
 				}
 			}
@@ -610,7 +625,7 @@ func (g *hGen) mutate() {
 		}
 		k := pick(r, single)
 		p := g.pods[k]
-		ok := p.Namespace + "/" + p.OwnerReferences[0].Name
+		ok := p.Namespace + "/" + ctlOwner(p)
 		for i, n := 0, r.between(1, 3); i < n; i++ {
 			q := job.Step{Kind: job.Query, Src: g.peerStr(), Dst: k, Proto: "TCP", Port: pick(r, []string{"80", "8080", "443"})}
 			if r.chance(1, 4) {
